@@ -12,21 +12,23 @@ VARIANTS = [
     V("size-step-off-by-one", D, "        step = (stop - start) / size", "        step = (stop - start) / (size - 1)", "R16.1"),
     V("frequency-stop-is-low", D, "        start=low_freq,\n        stop=high_freq,", "        start=low_freq,\n        stop=low_freq,", "R16.1"),
     V("time-step-samplerate", D, "        step = 1.0 / samplerate\n\n    return create_range_dim(", "        step = samplerate\n\n    return create_range_dim(", "R16.1"),
-    V("no-trim", D, "    if coords[-1] >= stop - step / 2:\n        coords = coords[:-1]\n", "", "R16.1"),
+    V("no-trim", D, "    if coords.size > 0 and coords[-1] >= stop - step / 2:\n        coords = coords[:-1]\n", "", "R16.1"),
     V("wrong-dim-index", A, "        indexer[dim_index] = get_coord_index(array, dim, coord)", "        indexer[dim_index] = get_coord_index(array, array.dims[0], coord)", "R16.3"),
     V("two-stores", A, "    array.data[tuple(indexer)] = value\n    return array", "    array.data[tuple(indexer)] = value\n    array.data[0] = value\n    return array", "R16.3"),
     V("axis-zero-always", A, "        dim_index: int = array.get_axis_num(dim)  # type: ignore", "        dim_index: int = 0", "R16.3"),
     V("arange-stop-plus-step", D, "        start=start,\n        stop=stop,\n        step=step,\n        dtype=dtype,\n    )\n\n    # NOTE", "        start=start,\n        stop=stop + step,\n        step=step,\n        dtype=dtype,\n    )\n\n    # NOTE", "R16.1"),
     V("dim-range-first-last-swapped", D, "    return index.min(), index.max()", "    return index.max(), index.min()", "R16.2"),
-    V("trim-threshold-1e-4-step", "src/soundevent/arrays/dimensions.py", "    if coords[-1] >= stop - step / 2:", "    if stop - coords[-1] < 1e-4 * step:", "R16.1"),
-    V("trim-only-at-or-above-stop", "src/soundevent/arrays/dimensions.py", "    if coords[-1] >= stop - step / 2:", "    if coords[-1] >= stop:", "R16.1"),
-    V("trim-threshold-whole-step", "src/soundevent/arrays/dimensions.py", "    if coords[-1] >= stop - step / 2:", "    if coords[-1] >= stop - step:", "R16.1"),
+    V("trim-threshold-1e-4-step", "src/soundevent/arrays/dimensions.py", "    if coords.size > 0 and coords[-1] >= stop - step / 2:", "    if coords.size > 0 and stop - coords[-1] < 1e-4 * step:", "R16.1"),
+    V("trim-only-at-or-above-stop", "src/soundevent/arrays/dimensions.py", "    if coords.size > 0 and coords[-1] >= stop - step / 2:", "    if coords.size > 0 and coords[-1] >= stop:", "R16.1"),
+    V("trim-threshold-whole-step", "src/soundevent/arrays/dimensions.py", "    if coords.size > 0 and coords[-1] >= stop - step / 2:", "    if coords.size > 0 and coords[-1] >= stop - step:", "R16.1"),
     # neutral
     V("N-keyword-order", D, "        start=low_freq,\n        stop=high_freq,\n        step=step,", "        step=step,\n        stop=high_freq,\n        start=low_freq,", None),
     V("N-range-test-not-between", D, "    if value < start or value > stop:", "    if not (start <= value <= stop):", None),
     V("N-rename-index", D, "    index = arr.indexes[dim].get_slice_bound(value, \"right\")\n    return index - 1", "    bound = arr.indexes[dim].get_slice_bound(value, \"right\")\n    return bound - 1", None),
-    V("N-trim-strict-half-step", "src/soundevent/arrays/dimensions.py", "    if coords[-1] >= stop - step / 2:", "    if coords[-1] > stop - 0.5 * step:", None),
+    V("N-trim-strict-half-step", "src/soundevent/arrays/dimensions.py", "    if coords.size > 0 and coords[-1] >= stop - step / 2:", "    if len(coords) > 0 and coords[-1] > stop - 0.5 * step:", None),
     # wave 7
     V("range-by-linspace", "src/soundevent/arrays/dimensions.py", "    coords = np.arange(\n        start=start,\n        stop=stop,\n        step=step,\n        dtype=dtype,\n    )",
       "    coords = np.linspace(start, stop, num=int(round((stop - start) / step)), endpoint=False, dtype=dtype)", "R16.1"),
+    # F27: the pre-repair form
+    V("trailing-test-on-empty-range(F27)", "src/soundevent/arrays/dimensions.py", "    if coords.size > 0 and coords[-1] >= stop - step / 2:", "    if coords[-1] >= stop - step / 2:", "R16.5"),
 ]
